@@ -582,21 +582,25 @@ func (s *Stream) StartMessageRead(ctx context.Context) error {
 
 // readNextFrame reads the next frame and appends to receive buffer
 func (s *Stream) readNextFrame(ctx context.Context) error {
-	frameData, endFlag, err := s.ReceiveFrameWithEnd(ctx)
-	if err != nil {
-		return err
+	// Loop (rather than recurse) over the partial frames of a message: the number
+	// of frames is chosen by the peer, and one stack frame per 5-byte empty partial
+	// frame lets a few megabytes of input exhaust the goroutine stack limit, which
+	// is a fatal, unrecoverable error for the whole process.
+	for {
+		frameData, endFlag, err := s.ReceiveFrameWithEnd(ctx)
+		if err != nil {
+			return err
+		}
+
+		// Append frame data to receive buffer
+		s.receiveBuffer = append(s.receiveBuffer, frameData...)
+		s.totalMsgBytes = len(s.receiveBuffer)
+
+		// If this is not the final frame, read more frames
+		if endFlag != EndFlagPartial {
+			return nil
+		}
 	}
-
-	// Append frame data to receive buffer
-	s.receiveBuffer = append(s.receiveBuffer, frameData...)
-	s.totalMsgBytes = len(s.receiveBuffer)
-
-	// If this is not the final frame, read more frames
-	if endFlag == EndFlagPartial {
-		return s.readNextFrame(ctx) // Recursively read until complete message
-	}
-
-	return nil
 }
 
 // ReceiveCompleteMessage receives a complete message, reading multiple frames if necessary
